@@ -9,6 +9,8 @@ import (
 	"sort"
 	"sync"
 
+	"github.com/polynetwork/poly/common/config"
+
 	"verifh/kit/vio"
 )
 
@@ -175,7 +177,7 @@ func xcEdges(cfg Config) {
 		}
 	})
 	vio.Emit(map[string]interface{}{"summary": true, "edges": len(edges), "distinct": len(distinct), "mismatches": nmis, "diverged": ndiv,
-		"chains": u.describe()})
+		"chains": u.describe(), "eventlog": cfg.eventLog()})
 }
 
 func (u *Universe) kindOf(name string) string {
@@ -310,6 +312,10 @@ func xcRecord(cfg Config, ntraces, length int) {
 	rng := vio.NewRNG(vio.Seed()*31 + 5)
 	chains := u.names
 	for tr := 0; tr < ntraces; tr++ {
+		// node configuration: event log on for even traces, off for odd ones (unless the config pins it)
+		if cfg.EventLog == nil {
+			config.DefConfig.Common.EnableEventLog = tr%2 == 0
+		}
 		r := u.newRun()
 		rc := newRecorder(r)
 		vio.Emit(resetEvent(r))
